@@ -105,6 +105,14 @@ def execute(ctx, calls, order, case):
     # a second connection of the same process (session + system bus, say): what arrives THERE, even under the serial of
     # a call made here, is none of this connection's business - and its loss neither
     other = clientfix.Peer().ready() if (len(order) + len(calls)) % 4 == 0 else None
+    # a listener that makes one more call when it learns that the connection is gone: that call is outstanding on a dead
+    # connection and completes once, with the loss reason, leaving nothing behind
+    goodbyes = []
+    if (len(order) + 2 * len(calls)) % 5 == 0:
+        def goodbye(c_, reason_):
+            goodbyes.append(clientfix.Outcome(c_.callRemote('/obj', 'Goodbye', interface='org.verif.I',
+                                                            destination='org.verif.Peer', timeout=7.5)))
+        conn.notifyOnDisconnect(goodbye)
     # issue the calls
     for c in calls:
         kw = {}
@@ -287,6 +295,11 @@ def execute(ctx, calls, order, case):
         ctx.report('timer-leak', '%d timers still live after every call completed' % len(live), w, case)
         for dc in live:
             dc.cancel()
+    for g in goodbyes:
+        ctx.count('calls_from_disconnect_callbacks')
+        if g.fired != 1 or g.results[0][0] != 'err' or g.results[0][1].value is not loss_reason.value:
+            ctx.report('call-from-disconnect-callback', 'a call issued by a disconnect callback completed %d times (%r), '
+                       'expected once with the loss reason' % (g.fired, [(k, repr(v)[:80]) for k, v in g.results]), w, case)
     pend = getattr(conn, '_pendingCalls', None)
     if isinstance(pend, dict) and pend:
         ctx.report('bookkeeping-left', '%d pending-call entries remain after completion' % len(pend), w, case)
